@@ -115,6 +115,7 @@ func (h *Handler) modifyResponse(r *http.Response) error {
 		log.Debug("No content encoding header found")
 	default:
 		h.log.Warn(unsupportedContentEncoding, slog.String("encoding", r.Header.Get("Content-Encoding")))
+		return nil
 	}
 
 	// Read the encoded body.
@@ -167,7 +168,7 @@ outer:
 		if len(parts) < 2 {
 			continue
 		}
-		if parts[0] != "script-src" {
+		if !strings.EqualFold(parts[0], "script-src") {
 			continue
 		}
 		for _, source := range parts[1:] {
